@@ -262,6 +262,92 @@ theorem F7_witness_exact :
     periodOfRateUnfixedQ flDouble (sampleRateQ flDouble 55) = 54 ∧
     periodOfRateQ flDouble (sampleRateQ flDouble 55) = 55 := by decide +kernel
 
+/-! ## Sample rate of a time series -/
+
+/-- A time series on a regular grid of at least two samples has that grid's step … -/
+theorem tsStep_grid (t0 d : Int) (n : Nat) (hn : 2 ≤ n) : tsStep (grid t0 d n) = some d := by
+  obtain ⟨k, rfl⟩ : ∃ k, n = k + 2 := ⟨n - 2, by omega⟩
+  unfold tsStep
+  rw [diffs_grid d (k + 1) t0, List.replicate_succ]
+  simp
+
+/-- … and only those have one: a unique step means the timestamps are `t0, t0 + d, t0 + 2d, …` -/
+theorem tsStep_some (ts : List Int) (d : Int) (h : tsStep ts = some d) :
+    ∃ t0 n, 2 ≤ n ∧ ts = grid t0 d n := by
+  unfold tsStep at h
+  split at h
+  · cases h
+  · rename_i d' ds hd
+    split at h
+    · rename_i hall
+      simp only [Option.some.injEq] at h
+      subst h
+      -- every difference is d'
+      have hall' : ∀ x ∈ diffs ts, x = d' := by
+        intro x hx
+        rw [hd] at hx
+        rcases List.mem_cons.mp hx with rfl | hx
+        · rfl
+        · have := List.all_eq_true.mp hall x hx
+          simpa using this
+      have hlen : diffs ts ≠ [] := by rw [hd]; simp
+      clear hd hall
+      induction ts with
+      | nil => simp [diffs] at hlen
+      | cons a r ih =>
+        cases r with
+        | nil => simp [diffs] at hlen
+        | cons b r' =>
+          have hb : b - a = d' := hall' (b - a) (by simp [diffs])
+          cases r' with
+          | nil =>
+            refine ⟨a, 2, by omega, ?_⟩
+            simp only [grid]
+            congr 2; omega
+          | cons c r'' =>
+            obtain ⟨t0, n, hn, e⟩ := ih (fun x hx => hall' x (by simp only [diffs] at hx ⊢; exact List.mem_cons_of_mem _ hx))
+              (by simp [diffs])
+            refine ⟨a, n + 1, by omega, ?_⟩
+            have : t0 = b := by
+              cases n with
+              | zero => omega
+              | succ m => simp only [grid, List.cons.injEq] at e; exact e.1.symm
+            subst this
+            simp only [grid, e]
+            congr 2; omega
+    · cases h
+
+/-- The sample rate reported for a time series is `1e9 / d` (one rounded division) exactly when its timestamps form a
+    regular grid of step `d ≠ 0` with at least two samples, and `None` otherwise. -/
+theorem ts_sample_rate_spec (fl : Rat → Rat) (ts : List Int) (r : Rat) :
+    tsSampleRate fl ts = some r ↔
+      ∃ t0 d n, 2 ≤ n ∧ d ≠ 0 ∧ ts = grid t0 d n ∧ r = fl (1000000000 / (d : Rat)) := by
+  unfold tsSampleRate
+  constructor
+  · intro h
+    split at h
+    · rename_i d hd
+      split at h
+      · cases h
+      · rename_i hd0
+        simp only [Option.some.injEq] at h
+        obtain ⟨t0, n, hn, e⟩ := tsStep_some ts d hd
+        exact ⟨t0, d, n, hn, hd0, e, h.symm⟩
+    · cases h
+  · rintro ⟨t0, d, n, hn, hd0, e, hr⟩
+    rw [e, tsStep_grid t0 d n hn]
+    simp only [if_neg hd0, hr]
+
+example : tsSampleRate flDouble [100, 110, 120] = some 100000000 := by decide +kernel
+example : tsSampleRate flDouble [100, 110, 125] = none := by decide +kernel
+example : tsSampleRate flDouble [100] = none := by decide +kernel
+
+/-- The bound on the period in `period_round_trip` cannot simply be dropped: below `2^52` ns there is a period that the
+    double round trip changes (kernel-evaluated on the exact doubles). -/
+theorem period_bound_witness :
+    periodOfRateQ flDouble (sampleRateQ flDouble 3074885023508251) ≠ 3074885023508251 ∧
+    (3074885023508251 : Int) < 2 ^ 52 := by decide +kernel
+
 /-! ## Datasets: write, classify, read back -/
 
 /-- Writing a channel with `to_dataset` and reading the dataset with `channel_class(dset).from_dataset(dset)` gives the
